@@ -1,0 +1,58 @@
+//go:build verif
+
+package cli
+
+import (
+	"io"
+	"os"
+
+	"github.com/itchyny/go-yaml"
+)
+
+// Verification hooks for property C08 (no crash). Compiled only with the build
+// tag "verif"; exposes unexported internals, changes nothing.
+
+// VerifC08Command runs the command in-process exactly as Run does (run.go) with
+// the argument vector and the three streams injected, and returns the status
+// Run would hand to os.Exit.
+func VerifC08Command(args []string, stdin io.Reader, stdout, stderr io.Writer) int {
+	return (&cli{
+		inStream:  stdin,
+		outStream: stdout,
+		errStream: stderr,
+	}).run(append([]string(nil), args...))
+}
+
+// VerifC08ParseFlags runs parseFlags on a copy of args with a fresh flagopts and
+// returns the remaining arguments, the filled option struct (pointer, to be
+// inspected by reflection) and the error.
+func VerifC08ParseFlags(args []string) ([]string, any, error) {
+	var opts flagopts
+	rest, err := parseFlags(append([]string(nil), args...), &opts)
+	return rest, &opts, err
+}
+
+// VerifC08Test is one entry of cli/test.yaml.
+type VerifC08Test struct {
+	Name     string
+	Args     []string
+	Input    string
+	Env      []string
+	Expected string
+	Error    string
+	ExitCode int `yaml:"exit_code"`
+}
+
+// VerifC08Corpus decodes a test.yaml file.
+func VerifC08Corpus(path string) ([]VerifC08Test, error) {
+	f, err := os.Open(path)
+	if err != nil {
+		return nil, err
+	}
+	defer f.Close()
+	var tests []VerifC08Test
+	if err := yaml.NewDecoder(f).Decode(&tests); err != nil {
+		return nil, err
+	}
+	return tests, nil
+}
